@@ -1,6 +1,9 @@
 (* C03 - Allowable expenditure is conserved.  Statements only. *)
 From Coq Require Import QArith Qcanon ZArith List Bool Sorted.
 Require Import CGT.Model.Num CGT.Model.Match CGT.Proofs.MatchFacts CGT.Proofs.MatchInv CGT.Proofs.MatchCost CGT.Proofs.PrepassFacts CGT.Proofs.Examples.
+Require Import CGT.Model.Ledger CGT.Model.Agg CGT.Model.Report CGT.Model.Validate CGT.Proofs.ReportAdd CGT.Proofs.ValidWf.
+From Coq Require Import String.
+Open Scope Qc_scope.
 Import ListNotations.
 Open Scope Qc_scope.
 
@@ -29,6 +32,17 @@ Theorem C03_full_conservation : forall w ds offs s, wf_days ds -> sorted_days ds
   qsum (map (fun x : Z * list leg => qsum (map lg_cost (snd x))) (m_disp s)) + m_pc s
   = qsum (map bcost' ds) + effective_total false [] ds.
 Proof. exact run_full_conservation. Qed.
+
+(* ... for every validated ledger and each of its securities *)
+Theorem C03_validated_ledgers : forall P l s offs st, has_errors (map t_op l) = false ->
+  prepass false [] (days_of_tick l s) = inr offs -> sr_res (eval_tick P l s) = inr st ->
+  qsum (map (fun x : Z * list leg => qsum (map lg_cost (snd x))) (m_disp st)) + m_pc st
+  = qsum (map bcost' (days_of_tick l s)) + effective_total false [] (days_of_tick l s).
+Proof.
+  intros P l s offs st Hv Hp Hr. destruct (validated_days l s Hv) as [W S]. unfold eval_tick in Hr. cbn [sr_res] in Hr.
+  exact (run_full_conservation (p_window P) _ offs st W S Hp Hr).
+Qed.
+Print Assumptions C03_validated_ledgers.
 
 (* one adjustment (capital return / accumulation) is apportioned in full over the lots held *)
 Theorem C03_adjustment_exact : forall ls a, (forall l, In l ls -> 0 <= pl_held l) -> total_held ls <> 0 ->
